@@ -6,17 +6,6 @@ namespace Comet.HNSW
 
 variable {V S : Type}
 
-theorem liveSucc_eq (s : State V) : liveSucc s = liveSuccAt s 0 := by
-  funext i
-  simp only [liveSucc, liveSuccAt, nbrsAt]
-  split
-  · rfl
-  · cases s.nodes.get? i with
-    | none => rfl
-    | some n =>
-      rcases n with ⟨_, _, es⟩
-      cases es <;> simp
-
 /-! ### sorted-list heaps -/
 
 theorem insAsc_perm (lt : S → S → Bool) (c : Hit S) : ∀ l, (insAsc lt c l).Perm (c :: l)
@@ -62,7 +51,8 @@ theorem length_insDesc (lt : S → S → Bool) (c : Hit S) (l : List (Hit S)) :
     (insDesc lt c l).length = l.length + 1 := by
   rw [(insDesc_perm lt c l).length_eq]; simp
 
-/-! ### the loop invariants -/
+/-! ### the loop invariants (searchLayer since fix f6a780e: soft-deleted vertices are
+    walked through — candidate heap — but never reported — result heap) -/
 
 section Loop
 variable (m : Metric V S) (s : State V) (q : V) (ef layer : Nat) (ep : Id)
@@ -70,12 +60,13 @@ variable (m : Metric V S) (s : State V) (q : V) (ef layer : Nat) (ep : Id)
 /-- a hit names a resident vertex and carries its distance to the query -/
 def Good (h : Hit S) : Prop := ∃ n, s.nodes.get? h.id = some n ∧ h.score = m.dist q n.vec
 
-/-- reachable from `ep` through non-deleted vertices of `layer` -/
-abbrev RL (v : Id) : Prop := Reach (liveSuccAt s layer) ep v
+/-- reachable from `ep` along the edges of `layer` (through ANY stored vertex, soft-deleted
+    ones included) -/
+abbrev RL (v : Id) : Prop := Reach (nbrsAt s layer) ep v
 
 /-- soundness invariant of `searchLayer`'s two heaps -/
 structure SInv (cs rs : List (Hit S)) (vis : IdMap Unit) : Prop where
-  cs_ok : ∀ c ∈ cs, RL s layer ep c.id ∧ isDeleted s c.id = false ∧ vis.contains c.id = true ∧ Good m s q c
+  cs_ok : ∀ c ∈ cs, RL s layer ep c.id ∧ vis.contains c.id = true ∧ Good m s q c
   rs_ok : ∀ r ∈ rs, RL s layer ep r.id ∧ isDeleted s r.id = false ∧ vis.contains r.id = true ∧ Good m s q r
   rs_nodup : (rs.map (·.id)).Nodup
 
@@ -87,10 +78,54 @@ theorem vis_mono (vis : IdMap Unit) (i j : Id) (h : vis.contains j = true) :
 theorem vis_set_self (vis : IdMap Unit) (i : Id) : (vis.set i ()).contains i = true := by
   simp [IdMap.contains, IdMap.get?_set]
 
+theorem node!_eq {s : State V} {i : Id} {n : Node V} (h : node! s i = .ok n) :
+    s.nodes.get? i = some n := by
+  simp only [node!] at h
+  split at h
+  · next n' hn' => cases h; exact hn'
+  · cases h
+
+theorem SInv.mark {cs rs : List (Hit S)} {vis : IdMap Unit} (h : SInv m s q layer ep cs rs vis) (nb : Id) :
+    SInv m s q layer ep cs rs (vis.set nb ()) :=
+  ⟨fun c hc => let ⟨a, c', d⟩ := h.cs_ok c hc; ⟨a, vis_mono vis nb _ c', d⟩,
+   fun c hc => let ⟨a, b, c', d⟩ := h.rs_ok c hc; ⟨a, b, vis_mono vis nb _ c', d⟩,
+   h.rs_nodup⟩
+
+/-- pushing an admitted vertex on the candidate heap -/
+theorem SInv.pushC {cs rs : List (Hit S)} {vis : IdMap Unit} (h : SInv m s q layer ep cs rs vis)
+    (c : Hit S) (hc : RL s layer ep c.id ∧ vis.contains c.id = true ∧ Good m s q c) :
+    SInv m s q layer ep (insAsc m.sc.lt c cs) rs vis :=
+  ⟨fun x hx => by
+      rcases mem_insAsc.1 hx with rfl | hx
+      · exact hc
+      · exact h.cs_ok x hx,
+   h.rs_ok, h.rs_nodup⟩
+
+/-- pushing a live, not yet reported vertex on the result heap (with the eviction) -/
+theorem SInv.pushR {cs rs : List (Hit S)} {vis : IdMap Unit} (h : SInv m s q layer ep cs rs vis)
+    (c : Hit S) (hc : RL s layer ep c.id ∧ isDeleted s c.id = false ∧ vis.contains c.id = true ∧ Good m s q c)
+    (hnew : c.id ∉ rs.map (·.id)) :
+    SInv m s q layer ep cs
+      (if (insDesc m.sc.lt c rs).length > ef then (insDesc m.sc.lt c rs).tail else insDesc m.sc.lt c rs) vis := by
+  have h2 : SInv m s q layer ep cs (insDesc m.sc.lt c rs) vis := by
+    refine ⟨h.cs_ok, ?_, ?_⟩
+    · intro x hx
+      rcases mem_insDesc.1 hx with rfl | hx
+      · exact hc
+      · exact h.rs_ok x hx
+    · have := ((insDesc_perm m.sc.lt c rs).map (·.id))
+      rw [this.nodup_iff]
+      simp only [List.map_cons, List.nodup_cons]
+      exact ⟨hnew, h.rs_nodup⟩
+  split
+  · exact ⟨h2.cs_ok, fun r hr => h2.rs_ok r (List.mem_of_mem_tail hr),
+      h2.rs_nodup.sublist ((List.tail_sublist _).map _)⟩
+  · exact h2
+
 /-- soundness of the neighbour scan -/
 theorem scanNbrs_sound :
     ∀ (nbs : List Id) (cs rs : List (Hit S)) (vis : IdMap Unit) (cs' rs' : List (Hit S)) (vis' : IdMap Unit),
-      (∀ nb ∈ nbs, isDeleted s nb = false → RL s layer ep nb) →
+      (∀ nb ∈ nbs, RL s layer ep nb) →
       SInv m s q layer ep cs rs vis →
       scanNbrs m s q ef nbs (cs, rs, vis) = .ok (cs', rs', vis') →
       SInv m s q layer ep cs' rs' vis' ∧ (∀ j, vis.contains j = true → vis'.contains j = true) := by
@@ -103,88 +138,46 @@ theorem scanNbrs_sound :
     exact ⟨hinv, fun _ h => h⟩
   | cons nb rest ih =>
     intro cs rs vis cs' rs' vis' hnb hinv h
-    have hrest : ∀ nb ∈ rest, isDeleted s nb = false → RL s layer ep nb :=
-      fun x hx => hnb x (List.mem_cons_of_mem _ hx)
+    have hrest : ∀ nb ∈ rest, RL s layer ep nb := fun x hx => hnb x (List.mem_cons_of_mem _ hx)
+    have hR : RL s layer ep nb := hnb nb (by simp)
     simp only [scanNbrs] at h
     split at h
     · exact ih cs rs vis cs' rs' vis' hrest hinv h
-    · next hdel =>
+    · next hvis =>
+      have hinv1 := hinv.mark m s q layer ep nb
       split at h
-      · exact ih cs rs vis cs' rs' vis' hrest hinv h
-      · next hvis =>
-        have hdel' : isDeleted s nb = false := by simpa using hdel
-        have hR : RL s layer ep nb := hnb nb (by simp) hdel'
-        -- the three invariants survive marking `nb` visited
-        have hinv1 : SInv m s q layer ep cs rs (vis.set nb ()) :=
-          ⟨fun c hc => let ⟨a, b, c', d⟩ := hinv.cs_ok c hc; ⟨a, b, vis_mono vis nb _ c', d⟩,
-           fun c hc => let ⟨a, b, c', d⟩ := hinv.rs_ok c hc; ⟨a, b, vis_mono vis nb _ c', d⟩,
-           hinv.rs_nodup⟩
+      · cases h
+      · next n hn =>
+        have hgood : Good m s q (⟨nb, m.dist q n.vec⟩ : Hit S) := ⟨n, node!_eq hn, rfl⟩
         split at h
         · cases h
-        · next n hn =>
+        · obtain ⟨hi, hm⟩ := ih cs rs (vis.set nb ()) cs' rs' vis' hrest hinv1 h
+          exact ⟨hi, fun j hj => hm j (vis_mono vis nb j hj)⟩
+        · have hinv2 := hinv1.pushC m s q layer ep ⟨nb, m.dist q n.vec⟩ ⟨hR, vis_set_self vis nb, hgood⟩
           split at h
-          · cases h
-          · obtain ⟨hi, hm⟩ := ih cs rs (vis.set nb ()) cs' rs' vis' hrest hinv1 h
+          · obtain ⟨hi, hm⟩ := ih _ rs (vis.set nb ()) cs' rs' vis' hrest hinv2 h
             exact ⟨hi, fun j hj => hm j (vis_mono vis nb j hj)⟩
-          · -- admitted
-            have hn' : s.nodes.get? nb = some n := by
-              simp only [node!] at hn
-              split at hn
-              · next n' hn' => cases hn; exact hn'
-              · cases hn
-            have hgood : Good m s q (⟨nb, m.dist q n.vec⟩ : Hit S) := ⟨n, hn', rfl⟩
+          · next hdel =>
+            have hdel' : isDeleted s nb = false := by simpa using hdel
             have hnotin : nb ∉ rs.map (·.id) := by
               intro hmem
               obtain ⟨r, hr, hrid⟩ := List.mem_map.1 hmem
               have := (hinv.rs_ok r hr).2.2.1
               rw [hrid] at this
               exact hvis (by simpa using this)
-            have hnew : RL s layer ep nb ∧ isDeleted s nb = false ∧
-                (vis.set nb ()).contains nb = true ∧ Good m s q (⟨nb, m.dist q n.vec⟩ : Hit S) :=
-              ⟨hR, hdel', vis_set_self vis nb, hgood⟩
-            have hrs2 : SInv m s q layer ep (insAsc m.sc.lt ⟨nb, m.dist q n.vec⟩ cs)
-                (insDesc m.sc.lt ⟨nb, m.dist q n.vec⟩ rs) (vis.set nb ()) := by
-              refine ⟨?_, ?_, ?_⟩
-              · intro c hc
-                rcases mem_insAsc.1 hc with rfl | hc
-                · exact hnew
-                · exact hinv1.cs_ok c hc
-              · intro c hc
-                rcases mem_insDesc.1 hc with rfl | hc
-                · exact hnew
-                · exact hinv1.rs_ok c hc
-              · have := ((insDesc_perm m.sc.lt ⟨nb, m.dist q n.vec⟩ rs).map (·.id))
-                rw [this.nodup_iff]
-                simp only [List.map_cons, List.nodup_cons]
-                exact ⟨hnotin, hinv.rs_nodup⟩
-            have hrs3 : SInv m s q layer ep (insAsc m.sc.lt ⟨nb, m.dist q n.vec⟩ cs)
-                (if (insDesc m.sc.lt ⟨nb, m.dist q n.vec⟩ rs).length > ef
-                  then (insDesc m.sc.lt ⟨nb, m.dist q n.vec⟩ rs).tail
-                  else insDesc m.sc.lt ⟨nb, m.dist q n.vec⟩ rs) (vis.set nb ()) := by
-              split
-              · refine ⟨hrs2.cs_ok, fun r hr => hrs2.rs_ok r (List.mem_of_mem_tail hr), ?_⟩
-                exact hrs2.rs_nodup.sublist ((List.tail_sublist _).map _)
-              · exact hrs2
-            obtain ⟨hi, hm⟩ := ih _ _ (vis.set nb ()) cs' rs' vis' hrest hrs3 h
+            have hinv3 := hinv2.pushR m s q ef layer ep ⟨nb, m.dist q n.vec⟩
+              ⟨hR, hdel', vis_set_self vis nb, hgood⟩ hnotin
+            obtain ⟨hi, hm⟩ := ih _ _ (vis.set nb ()) cs' rs' vis' hrest hinv3 h
             exact ⟨hi, fun j hj => hm j (vis_mono vis nb j hj)⟩
 
-theorem node!_eq {s : State V} {i : Id} {n : Node V} (h : node! s i = .ok n) :
-    s.nodes.get? i = some n := by
-  simp only [node!] at h
-  split at h
-  · next n' hn' => cases h; exact hn'
-  · cases h
-
-/-- the neighbours that the scan of a popped, live, reachable vertex sees are reachable -/
+/-- the neighbours that the scan of a popped, reachable vertex sees are reachable -/
 theorem nbrs_reach {c : Id} {n : Node V} {nbs : List Id}
-    (hc : RL s layer ep c) (hdel : isDeleted s c = false)
-    (hn : s.nodes.get? c = some n) (he : n.edges[layer]? = some nbs) :
-    ∀ nb ∈ nbs, isDeleted s nb = false → RL s layer ep nb := by
-  intro nb hnb hd
+    (hc : RL s layer ep c) (hn : s.nodes.get? c = some n) (he : n.edges[layer]? = some nbs) :
+    ∀ nb ∈ nbs, RL s layer ep nb := by
+  intro nb hnb
   refine Reach.step hc ?_
-  simp only [liveSuccAt, hdel, nbrsAt, hn, he, Option.getD_some]
-  simp only [Bool.false_eq_true, if_false, List.mem_filter]
-  exact ⟨hnb, by simp [hd]⟩
+  simp only [nbrsAt, hn, he, Option.getD_some]
+  exact hnb
 
 /-- soundness of the main loop -/
 theorem searchLoop_sound :
@@ -212,7 +205,7 @@ theorem searchLoop_sound :
       simp only [searchLoop] at h
       have hinv' : SInv m s q layer ep cs rs vis :=
         ⟨fun x hx => hinv.cs_ok x (List.mem_cons_of_mem _ hx), hinv.rs_ok, hinv.rs_nodup⟩
-      obtain ⟨hcR, hcdel, _, _⟩ := hinv.cs_ok c (by simp)
+      obtain ⟨hcR, _, _⟩ := hinv.cs_ok c (by simp)
       split at h
       · cases h
       · simp only [Except.ok.injEq] at h; subst h
@@ -227,214 +220,224 @@ theorem searchLoop_sound :
             · cases h
             · next cs' rs' vis' hscan =>
               have := scanNbrs_sound m s q ef layer ep nbs cs rs vis cs' rs' vis'
-                (nbrs_reach s layer ep hcR hcdel (node!_eq hn) he) hinv' hscan
+                (nbrs_reach s layer ep hcR (node!_eq hn) he) hinv' hscan
               exact ih cs' rs' vis' res this.1 h
 
-/-- **searchLayer, soundness**: every returned hit is a resident, non-deleted vertex that
-    is reachable from the given entry point through non-deleted vertices of that layer,
-    carries its distance to the query, and no vertex is returned twice. -/
+/-- the state `searchLayer` starts its loop in -/
+theorem seed_inv (n : Node V) (hn : s.nodes.get? ep = some n) :
+    SInv m s q layer ep [⟨ep, m.dist q n.vec⟩]
+      (if isDeleted s ep then [] else [⟨ep, m.dist q n.vec⟩]) ((IdMap.empty : IdMap Unit).set ep ()) := by
+  have hg : Good m s q (⟨ep, m.dist q n.vec⟩ : Hit S) := ⟨n, hn, rfl⟩
+  refine ⟨by intro c hc; rcases List.mem_singleton.1 hc with rfl; exact ⟨Reach.refl, vis_set_self _ ep, hg⟩,
+    ?_, ?_⟩
+  · intro r hr
+    split at hr
+    · cases hr
+    · next hdel =>
+      rcases List.mem_singleton.1 hr with rfl
+      exact ⟨Reach.refl, by simpa using hdel, vis_set_self _ ep, hg⟩
+  · split <;> simp
+
+/-- **searchLayer, soundness**: every returned hit is a resident, NON-deleted vertex that
+    is reachable from the given start vertex along the edges of that layer (through any
+    stored vertices), carries its distance to the query, and no vertex is returned twice. -/
 theorem searchLayer_sound (res : List (Hit S))
     (h : searchLayer m s q ep ef layer = .ok res) :
     (∀ r ∈ res, RL s layer ep r.id ∧ isDeleted s r.id = false ∧ Good m s q r) ∧
     (res.map (·.id)).Nodup := by
   simp only [searchLayer] at h
   split at h
-  · simp only [Except.ok.injEq] at h; subst h; simp
-  · next hdel =>
+  · cases h
+  · next n hn =>
     split at h
     · cases h
-    · next n hn =>
-      split at h
-      · cases h
-      · next rs hloop =>
-        simp only [Except.ok.injEq] at h; subst h
-        have hdel' : isDeleted s ep = false := by simpa using hdel
-        have hseed : RL s layer ep ep ∧ isDeleted s ep = false ∧
-            ((IdMap.empty : IdMap Unit).set ep ()).contains ep = true ∧
-            Good m s q (⟨ep, m.dist q n.vec⟩ : Hit S) :=
-          ⟨Reach.refl, hdel', vis_set_self _ ep, n, node!_eq hn, rfl⟩
-        have hinv : SInv m s q layer ep [⟨ep, m.dist q n.vec⟩] [⟨ep, m.dist q n.vec⟩]
-            ((IdMap.empty : IdMap Unit).set ep ()) :=
-          ⟨by intro c hc; rcases List.mem_singleton.1 hc with rfl; exact hseed,
-           by intro c hc; rcases List.mem_singleton.1 hc with rfl; exact hseed,
-           by simp⟩
-        obtain ⟨h1, h2⟩ := searchLoop_sound m s q ef layer ep _ _ _ _ rs hinv hloop
-        refine ⟨fun r hr => h1 r (List.mem_reverse.1 hr), ?_⟩
-        rw [List.map_reverse]
-        exact (List.reverse_perm _).nodup_iff.2 h2
+    · next rs hloop =>
+      simp only [Except.ok.injEq] at h; subst h
+      obtain ⟨h1, h2⟩ := searchLoop_sound m s q (Nat.max ef 1) layer ep _ _ _ _ rs
+        (seed_inv m s q layer ep n (node!_eq hn)) hloop
+      refine ⟨fun r hr => h1 r (List.mem_reverse.1 hr), ?_⟩
+      rw [List.map_reverse]
+      exact (List.reverse_perm _).nodup_iff.2 h2
 
-/-! ### completeness: with `ef ≥` the number of reachable live vertices nothing is
-    rejected, nothing is evicted and the early exit is harmless -/
+/-! ### completeness: either the result heap is full (`≥ ef` hits) or it holds EVERY live
+    vertex reachable from the start -/
 
-/-- completeness invariant; `exc` is the vertex being expanded right now -/
+/-- completeness invariant while the result heap is not full; `exc` is the vertex being
+    expanded right now -/
 structure CInv (exc : Option Id) (cs rs : List (Hit S)) (vis : IdMap Unit) : Prop where
   ep_vis : vis.contains ep = true
-  vis_rs : ∀ v, RL s layer ep v → vis.contains v = true → v ∈ rs.map (·.id)
+  vis_rs : ∀ v, RL s layer ep v → isDeleted s v = false → vis.contains v = true → v ∈ rs.map (·.id)
   pending : ∀ v, RL s layer ep v → vis.contains v = true →
-    v ∈ cs.map (·.id) ∨ some v = exc ∨ ∀ w ∈ liveSuccAt s layer v, vis.contains w = true
+    v ∈ cs.map (·.id) ∨ some v = exc ∨ ∀ w ∈ nbrsAt s layer v, vis.contains w = true
 
 theorem contains_set_iff (vis : IdMap Unit) (i j : Id) :
     (vis.set i ()).contains j = true ↔ i = j ∨ vis.contains j = true := by
   simp only [IdMap.contains, IdMap.get?_set]
   split <;> simp_all
 
-variable (U : List Id)
-
-/-- the result heap never holds more than the cover -/
-theorem rs_length_le (hU : ∀ v, RL s layer ep v → v ∈ U) {cs rs : List (Hit S)} {vis : IdMap Unit}
-    (hinv : SInv m s q layer ep cs rs vis) : rs.length ≤ U.length := by
-  have : (rs.map (·.id)).Subperm U :=
-    List.subperm_of_subset hinv.rs_nodup (fun v hv => by
-      obtain ⟨r, hr, rfl⟩ := List.mem_map.1 hv
-      exact hU _ (hinv.rs_ok r hr).1)
-  simpa using this.length_le
-
-theorem scanNbrs_complete (hU : ∀ v, RL s layer ep v → v ∈ U) (hlen : U.length ≤ ef) (c : Id) :
+/-- a full result heap stays full -/
+theorem scanNbrs_full :
     ∀ (nbs : List Id) (cs rs : List (Hit S)) (vis : IdMap Unit) (cs' rs' : List (Hit S)) (vis' : IdMap Unit),
-      (∀ nb ∈ nbs, isDeleted s nb = false → RL s layer ep nb) →
-      SInv m s q layer ep cs rs vis → CInv s layer ep (some c) cs rs vis →
+      ef ≤ rs.length → scanNbrs m s q ef nbs (cs, rs, vis) = .ok (cs', rs', vis') → ef ≤ rs'.length := by
+  intro nbs
+  induction nbs with
+  | nil =>
+    intro cs rs vis cs' rs' vis' hf h
+    simp only [scanNbrs, Except.ok.injEq, Prod.mk.injEq] at h
+    obtain ⟨_, rfl, _⟩ := h; exact hf
+  | cons nb rest ih =>
+    intro cs rs vis cs' rs' vis' hf h
+    simp only [scanNbrs] at h
+    split at h
+    · exact ih _ _ _ _ _ _ hf h
+    · split at h
+      · cases h
+      · next n hn =>
+        split at h
+        · cases h
+        · exact ih _ _ _ _ _ _ hf h
+        · split at h
+          · exact ih _ _ _ _ _ _ hf h
+          · refine ih _ _ _ _ _ _ ?_ h
+            have hl := length_insDesc m.sc.lt ⟨nb, m.dist q n.vec⟩ rs
+            split
+            · simp only [List.length_tail]; omega
+            · omega
+
+theorem scanNbrs_complete (c : Id) :
+    ∀ (nbs : List Id) (cs rs : List (Hit S)) (vis : IdMap Unit) (cs' rs' : List (Hit S)) (vis' : IdMap Unit),
+      (∀ nb ∈ nbs, RL s layer ep nb) →
+      SInv m s q layer ep cs rs vis → (ef ≤ rs.length ∨ CInv s layer ep (some c) cs rs vis) →
       scanNbrs m s q ef nbs (cs, rs, vis) = .ok (cs', rs', vis') →
-      CInv s layer ep (some c) cs' rs' vis' ∧
-      (∀ w ∈ nbs, isDeleted s w = false → vis'.contains w = true) := by
+      ef ≤ rs'.length ∨ (CInv s layer ep (some c) cs' rs' vis' ∧ ∀ w ∈ nbs, vis'.contains w = true) := by
   intro nbs
   induction nbs with
   | nil =>
     intro cs rs vis cs' rs' vis' _ _ hc h
     simp only [scanNbrs, Except.ok.injEq, Prod.mk.injEq] at h
     obtain ⟨rfl, rfl, rfl⟩ := h
-    exact ⟨hc, by simp⟩
+    rcases hc with hc | hc
+    · exact Or.inl hc
+    · exact Or.inr ⟨hc, by simp⟩
   | cons nb rest ih =>
     intro cs rs vis cs' rs' vis' hnb hinv hc h
-    have hrest : ∀ nb ∈ rest, isDeleted s nb = false → RL s layer ep nb :=
-      fun x hx => hnb x (List.mem_cons_of_mem _ hx)
+    rcases hc with hfull | hc
+    · exact Or.inl (scanNbrs_full m s q ef _ _ _ _ _ _ _ hfull h)
+    have hrest : ∀ nb ∈ rest, RL s layer ep nb := fun x hx => hnb x (List.mem_cons_of_mem _ hx)
+    have hR : RL s layer ep nb := hnb nb (by simp)
     have hmono := fun cs rs vis (hi : SInv m s q layer ep cs rs vis) (hh : scanNbrs m s q ef rest (cs, rs, vis) = .ok (cs', rs', vis')) =>
       (scanNbrs_sound m s q ef layer ep rest cs rs vis cs' rs' vis' hrest hi hh).2
     simp only [scanNbrs] at h
     split at h
-    · next hdel =>
-      obtain ⟨h1, h2⟩ := ih cs rs vis cs' rs' vis' hrest hinv hc h
-      refine ⟨h1, ?_⟩
-      intro w hw hwd
-      rcases List.mem_cons.1 hw with rfl | hw
-      · rw [hdel] at hwd; cases hwd
-      · exact h2 w hw hwd
-    · next hdel =>
-      split at h
-      · next hvis =>
-        obtain ⟨h1, h2⟩ := ih cs rs vis cs' rs' vis' hrest hinv hc h
-        refine ⟨h1, ?_⟩
-        intro w hw hwd
+    · next hvis =>
+      rcases ih cs rs vis cs' rs' vis' hrest hinv (Or.inr hc) h with h1 | ⟨h1, h2⟩
+      · exact Or.inl h1
+      · refine Or.inr ⟨h1, ?_⟩
+        intro w hw
         rcases List.mem_cons.1 hw with rfl | hw
         · exact hmono cs rs vis hinv h _ hvis
-        · exact h2 w hw hwd
-      · next hvis =>
-        have hdel' : isDeleted s nb = false := by simpa using hdel
-        have hR : RL s layer ep nb := hnb nb (by simp) hdel'
-        have hinv1 : SInv m s q layer ep cs rs (vis.set nb ()) :=
-          ⟨fun c hc => let ⟨a, b, c', d⟩ := hinv.cs_ok c hc; ⟨a, b, vis_mono vis nb _ c', d⟩,
-           fun c hc => let ⟨a, b, c', d⟩ := hinv.rs_ok c hc; ⟨a, b, vis_mono vis nb _ c', d⟩,
-           hinv.rs_nodup⟩
-        split at h
-        · cases h
-        · next n hn =>
-          have hn' := node!_eq hn
-          have hnotin : nb ∉ rs.map (·.id) := by
-            intro hmem
-            obtain ⟨r, hr, hrid⟩ := List.mem_map.1 hmem
-            have := (hinv.rs_ok r hr).2.2.1
-            rw [hrid] at this
-            exact hvis (by simpa using this)
-          -- the new vertex fits: |rs| + 1 ≤ |U| ≤ ef
-          have hfit : rs.length + 1 ≤ U.length := by
-            have : (nb :: rs.map (·.id)).Subperm U :=
-              List.subperm_of_subset (List.nodup_cons.2 ⟨hnotin, hinv.rs_nodup⟩) (fun v hv => by
-                rcases List.mem_cons.1 hv with rfl | hv
-                · exact hU _ hR
-                · obtain ⟨r, hr, rfl⟩ := List.mem_map.1 hv
-                  exact hU _ (hinv.rs_ok r hr).1)
-            simpa using this.length_le
-          have hadm : admits m.sc.lt ef rs (m.dist q n.vec) = .ok true := by
-            have : rs.length < ef := by omega
-            simp [admits, this]
+        · exact h2 w hw
+    · next hvis =>
+      have hinv1 := hinv.mark m s q layer ep nb
+      split at h
+      · cases h
+      · next n hn =>
+        have hgood : Good m s q (⟨nb, m.dist q n.vec⟩ : Hit S) := ⟨n, node!_eq hn, rfl⟩
+        by_cases hlt : rs.length < ef
+        · -- the heap is not full: the vertex is admitted
+          have hadm : admits m.sc.lt ef rs (m.dist q n.vec) = .ok true := by simp [admits, hlt]
           simp only [hadm] at h
-          have hnoevict : ¬ (insDesc m.sc.lt ⟨nb, m.dist q n.vec⟩ rs).length > ef := by
-            rw [length_insDesc]; omega
-          simp only [hnoevict, if_false] at h
-          have hgood : Good m s q (⟨nb, m.dist q n.vec⟩ : Hit S) := ⟨n, hn', rfl⟩
-          have hnew : RL s layer ep nb ∧ isDeleted s nb = false ∧
-              (vis.set nb ()).contains nb = true ∧ Good m s q (⟨nb, m.dist q n.vec⟩ : Hit S) :=
-            ⟨hR, hdel', vis_set_self vis nb, hgood⟩
-          have hinv2 : SInv m s q layer ep (insAsc m.sc.lt ⟨nb, m.dist q n.vec⟩ cs)
-              (insDesc m.sc.lt ⟨nb, m.dist q n.vec⟩ rs) (vis.set nb ()) := by
-            refine ⟨?_, ?_, ?_⟩
-            · intro c hc
-              rcases mem_insAsc.1 hc with rfl | hc
-              · exact hnew
-              · exact hinv1.cs_ok c hc
-            · intro c hc
-              rcases mem_insDesc.1 hc with rfl | hc
-              · exact hnew
-              · exact hinv1.rs_ok c hc
-            · have := ((insDesc_perm m.sc.lt ⟨nb, m.dist q n.vec⟩ rs).map (·.id))
-              rw [this.nodup_iff]
-              simp only [List.map_cons, List.nodup_cons]
-              exact ⟨hnotin, hinv.rs_nodup⟩
-          have hc2 : CInv s layer ep (some c) (insAsc m.sc.lt ⟨nb, m.dist q n.vec⟩ cs)
-              (insDesc m.sc.lt ⟨nb, m.dist q n.vec⟩ rs) (vis.set nb ()) := by
-            refine ⟨vis_mono vis nb ep hc.ep_vis, ?_, ?_⟩
-            · intro v hv hvv
+          have hinv2 := hinv1.pushC m s q layer ep ⟨nb, m.dist q n.vec⟩ ⟨hR, vis_set_self vis nb, hgood⟩
+          have hpend : ∀ v, RL s layer ep v → (vis.set nb ()).contains v = true →
+              v ∈ (insAsc m.sc.lt ⟨nb, m.dist q n.vec⟩ cs).map (·.id) ∨ some v = some c ∨
+                ∀ w ∈ nbrsAt s layer v, (vis.set nb ()).contains w = true := by
+            intro v hv hvv
+            rcases (contains_set_iff vis nb v).1 hvv with rfl | hvv
+            · left
+              rw [((insAsc_perm m.sc.lt ⟨nb, m.dist q n.vec⟩ cs).map (·.id)).mem_iff]
+              simp
+            · rcases hc.pending v hv hvv with h1 | h1 | h1
+              · left
+                rw [((insAsc_perm m.sc.lt ⟨nb, m.dist q n.vec⟩ cs).map (·.id)).mem_iff]
+                exact List.mem_cons_of_mem _ h1
+              · exact Or.inr (Or.inl h1)
+              · exact Or.inr (Or.inr fun w hw => vis_mono vis nb w (h1 w hw))
+          split at h
+          · next hdel =>
+            -- soft-deleted: walked through, not reported
+            have hc2 : CInv s layer ep (some c) (insAsc m.sc.lt ⟨nb, m.dist q n.vec⟩ cs) rs (vis.set nb ()) := by
+              refine ⟨vis_mono vis nb ep hc.ep_vis, ?_, hpend⟩
+              intro v hv hvd hvv
+              rcases (contains_set_iff vis nb v).1 hvv with rfl | hvv
+              · rw [hdel] at hvd; cases hvd
+              · exact hc.vis_rs v hv hvd hvv
+            rcases ih _ rs (vis.set nb ()) cs' rs' vis' hrest hinv2 (Or.inr hc2) h with h1 | ⟨h1, h2⟩
+            · exact Or.inl h1
+            · refine Or.inr ⟨h1, ?_⟩
+              intro w hw
+              rcases List.mem_cons.1 hw with rfl | hw
+              · exact hmono _ _ _ hinv2 h _ (vis_set_self vis _)
+              · exact h2 w hw
+          · next hdel =>
+            have hdel' : isDeleted s nb = false := by simpa using hdel
+            have hnotin : nb ∉ rs.map (·.id) := by
+              intro hmem
+              obtain ⟨r, hr, hrid⟩ := List.mem_map.1 hmem
+              have := (hinv.rs_ok r hr).2.2.1
+              rw [hrid] at this
+              exact hvis (by simpa using this)
+            have hnoevict : ¬ (insDesc m.sc.lt ⟨nb, m.dist q n.vec⟩ rs).length > ef := by
+              rw [length_insDesc]; omega
+            have hinv3 := hinv2.pushR m s q ef layer ep ⟨nb, m.dist q n.vec⟩
+              ⟨hR, hdel', vis_set_self vis nb, hgood⟩ hnotin
+            simp only [hnoevict, if_false] at h hinv3
+            have hc2 : CInv s layer ep (some c) (insAsc m.sc.lt ⟨nb, m.dist q n.vec⟩ cs)
+                (insDesc m.sc.lt ⟨nb, m.dist q n.vec⟩ rs) (vis.set nb ()) := by
+              refine ⟨vis_mono vis nb ep hc.ep_vis, ?_, hpend⟩
+              intro v hv hvd hvv
               rw [((insDesc_perm m.sc.lt ⟨nb, m.dist q n.vec⟩ rs).map (·.id)).mem_iff]
               rcases (contains_set_iff vis nb v).1 hvv with rfl | hvv
               · simp
-              · exact List.mem_cons_of_mem _ (hc.vis_rs v hv hvv)
-            · intro v hv hvv
-              rcases (contains_set_iff vis nb v).1 hvv with rfl | hvv
-              · left
-                rw [((insAsc_perm m.sc.lt ⟨nb, m.dist q n.vec⟩ cs).map (·.id)).mem_iff]
-                simp
-              · rcases hc.pending v hv hvv with h1 | h1 | h1
-                · left
-                  rw [((insAsc_perm m.sc.lt ⟨nb, m.dist q n.vec⟩ cs).map (·.id)).mem_iff]
-                  exact List.mem_cons_of_mem _ h1
-                · exact Or.inr (Or.inl h1)
-                · exact Or.inr (Or.inr fun w hw => vis_mono vis nb w (h1 w hw))
-          obtain ⟨h1, h2⟩ := ih _ _ (vis.set nb ()) cs' rs' vis' hrest hinv2 hc2 h
-          refine ⟨h1, ?_⟩
-          intro w hw hwd
-          rcases List.mem_cons.1 hw with rfl | hw
-          · exact hmono _ _ _ hinv2 h _ (vis_set_self vis _)
-          · exact h2 w hw hwd
+              · exact List.mem_cons_of_mem _ (hc.vis_rs v hv hvd hvv)
+            rcases ih _ _ (vis.set nb ()) cs' rs' vis' hrest hinv3 (Or.inr hc2) h with h1 | ⟨h1, h2⟩
+            · exact Or.inl h1
+            · refine Or.inr ⟨h1, ?_⟩
+              intro w hw
+              rcases List.mem_cons.1 hw with rfl | hw
+              · exact hmono _ _ _ hinv3 h _ (vis_set_self vis _)
+              · exact h2 w hw
+        · -- the heap is full already, and stays full
+          have hfull : ef ≤ rs.length := by omega
+          have hsc : scanNbrs m s q ef (nb :: rest) (cs, rs, vis) = .ok (cs', rs', vis') := by
+            simp only [scanNbrs, hvis, hn]
+            exact h
+          exact Or.inl (scanNbrs_full m s q ef _ _ _ _ _ _ _ hfull hsc)
 
-/-- when the loop ends every reachable live vertex is in the result heap -/
-theorem searchLoop_complete (hU : ∀ v, RL s layer ep v → v ∈ U) (hlen : U.length ≤ ef) :
+/-- when the loop ends the result heap is full or holds every live reachable vertex -/
+theorem searchLoop_complete :
     ∀ (fuel : Nat) (cs rs : List (Hit S)) (vis : IdMap Unit) (res : List (Hit S)),
-      SInv m s q layer ep cs rs vis → CInv s layer ep none cs rs vis →
+      SInv m s q layer ep cs rs vis → (ef ≤ rs.length ∨ CInv s layer ep none cs rs vis) →
       searchLoop m s q ef layer fuel cs rs vis = .ok res →
-      ∀ v, RL s layer ep v → v ∈ res.map (·.id) := by
+      ef ≤ res.length ∨ ∀ v, RL s layer ep v → isDeleted s v = false → v ∈ res.map (·.id) := by
   -- exit through the empty candidate heap
   have hdone : ∀ (rs : List (Hit S)) (vis : IdMap Unit),
-      CInv s layer ep none [] rs vis → ∀ v, RL s layer ep v → v ∈ rs.map (·.id) := by
-    intro rs vis hc v hv
-    have hall : ∀ v, RL s layer ep v → vis.contains v = true := by
-      intro v hv
-      induction hv with
-      | refl => exact hc.ep_vis
-      | step hu hw ih =>
-        rcases hc.pending _ hu ih with h | h | h
-        · simp at h
-        · cases h
-        · exact h _ hw
-    exact hc.vis_rs v hv (hall v hv)
-  -- exit through the early-termination test: the heap is already full, hence complete
-  have hfull : ∀ (cs rs : List (Hit S)) (vis : IdMap Unit), SInv m s q layer ep cs rs vis →
-      rs.length ≥ ef → ∀ v, RL s layer ep v → v ∈ rs.map (·.id) := by
-    intro cs rs vis hinv hge v hv
-    have hsub : (rs.map (·.id)).Subperm U :=
-      List.subperm_of_subset hinv.rs_nodup (fun v hv => by
-        obtain ⟨r, hr, rfl⟩ := List.mem_map.1 hv
-        exact hU _ (hinv.rs_ok r hr).1)
-    have hperm := hsub.perm_of_length_le (by simp; omega)
-    exact hperm.mem_iff.2 (hU v hv)
+      (ef ≤ rs.length ∨ CInv s layer ep none [] rs vis) →
+      ef ≤ rs.length ∨ ∀ v, RL s layer ep v → isDeleted s v = false → v ∈ rs.map (·.id) := by
+    intro rs vis hc
+    rcases hc with hc | hc
+    · exact Or.inl hc
+    · right
+      intro v hv hvd
+      have hall : ∀ v, RL s layer ep v → vis.contains v = true := by
+        intro v hv
+        induction hv with
+        | refl => exact hc.ep_vis
+        | step hu hw ih =>
+          rcases hc.pending _ hu ih with h | h | h
+          · simp at h
+          · cases h
+          · exact h _ hw
+      exact hc.vis_rs v hv hvd (hall v hv)
   intro fuel
   induction fuel with
   | zero =>
@@ -454,17 +457,16 @@ theorem searchLoop_complete (hU : ∀ v, RL s layer ep v → v ∈ U) (hlen : U.
       simp only [searchLoop] at h
       have hinv' : SInv m s q layer ep cs rs vis :=
         ⟨fun x hx => hinv.cs_ok x (List.mem_cons_of_mem _ hx), hinv.rs_ok, hinv.rs_nodup⟩
-      obtain ⟨hcR, hcdel, hcvis, _⟩ := hinv.cs_ok c (by simp)
+      obtain ⟨hcR, hcvis, _⟩ := hinv.cs_ok c (by simp)
       split at h
       · cases h
       · next hstop =>
         simp only [Except.ok.injEq] at h; subst h
-        have hge : rs.length ≥ ef := by
-          simp only [stops] at hstop
-          split at hstop
-          · assumption
-          · cases hstop
-        exact hfull _ _ vis hinv hge
+        left
+        simp only [stops] at hstop
+        split at hstop
+        · assumption
+        · cases hstop
       · split at h
         · cases h
         · next n hn =>
@@ -472,55 +474,61 @@ theorem searchLoop_complete (hU : ∀ v, RL s layer ep v → v ∈ U) (hlen : U.
           split at h
           · next he =>
             -- no such layer: nothing to expand
-            have hexp : ∀ w ∈ liveSuccAt s layer c.id, vis.contains w = true := by
-              simp [liveSuccAt, nbrsAt, hn', he]
-            refine ih cs rs vis res hinv' ⟨hc.ep_vis, hc.vis_rs, ?_⟩ h
-            intro v hv hvv
-            rcases hc.pending v hv hvv with h1 | h1 | h1
-            · rcases List.mem_cons.1 h1 with rfl | h1
-              · exact Or.inr (Or.inr hexp)
-              · exact Or.inl h1
-            · cases h1
-            · exact Or.inr (Or.inr h1)
+            refine ih cs rs vis res hinv' ?_ h
+            rcases hc with hc | hc
+            · exact Or.inl hc
+            · right
+              have hexp : ∀ w ∈ nbrsAt s layer c.id, vis.contains w = true := by
+                simp [nbrsAt, hn', he]
+              refine ⟨hc.ep_vis, hc.vis_rs, ?_⟩
+              intro v hv hvv
+              rcases hc.pending v hv hvv with h1 | h1 | h1
+              · rcases List.mem_cons.1 h1 with rfl | h1
+                · exact Or.inr (Or.inr hexp)
+                · exact Or.inl h1
+              · cases h1
+              · exact Or.inr (Or.inr h1)
           · next nbs he =>
             split at h
             · cases h
             · next cs' rs' vis' hscan =>
-              have hreach := nbrs_reach s layer ep hcR hcdel hn' he
-              have hc1 : CInv s layer ep (some c.id) cs rs vis := by
-                refine ⟨hc.ep_vis, hc.vis_rs, ?_⟩
-                intro v hv hvv
-                rcases hc.pending v hv hvv with h1 | h1 | h1
-                · rcases List.mem_cons.1 h1 with rfl | h1
-                  · exact Or.inr (Or.inl rfl)
-                  · exact Or.inl h1
-                · cases h1
-                · exact Or.inr (Or.inr h1)
+              have hreach := nbrs_reach s layer ep hcR hn' he
+              have hc1 : ef ≤ rs.length ∨ CInv s layer ep (some c.id) cs rs vis := by
+                rcases hc with hc | hc
+                · exact Or.inl hc
+                · right
+                  refine ⟨hc.ep_vis, hc.vis_rs, ?_⟩
+                  intro v hv hvv
+                  rcases hc.pending v hv hvv with h1 | h1 | h1
+                  · rcases List.mem_cons.1 h1 with rfl | h1
+                    · exact Or.inr (Or.inl rfl)
+                    · exact Or.inl h1
+                  · cases h1
+                  · exact Or.inr (Or.inr h1)
               have hs := scanNbrs_sound m s q ef layer ep nbs cs rs vis cs' rs' vis' hreach hinv' hscan
-              obtain ⟨hc2, hall⟩ := scanNbrs_complete m s q ef layer ep U hU hlen c.id nbs cs rs vis cs' rs' vis'
-                hreach hinv' hc1 hscan
-              have hexp : ∀ w ∈ liveSuccAt s layer c.id, vis'.contains w = true := by
-                intro w hw
-                simp only [liveSuccAt, hcdel, nbrsAt, hn', he, Option.getD_some] at hw
-                simp only [Bool.false_eq_true, if_false, List.mem_filter] at hw
-                exact hall w hw.1 (by simpa using hw.2)
-              refine ih cs' rs' vis' res hs.1 ⟨hc2.ep_vis, hc2.vis_rs, ?_⟩ h
-              intro v hv hvv
-              rcases hc2.pending v hv hvv with h1 | h1 | h1
+              refine ih cs' rs' vis' res hs.1 ?_ h
+              rcases scanNbrs_complete m s q ef layer ep c.id nbs cs rs vis cs' rs' vis'
+                hreach hinv' hc1 hscan with h1 | ⟨hc2, hall⟩
               · exact Or.inl h1
-              · cases h1; exact Or.inr (Or.inr hexp)
-              · exact Or.inr (Or.inr h1)
+              · right
+                have hexp : ∀ w ∈ nbrsAt s layer c.id, vis'.contains w = true := by
+                  intro w hw
+                  simp only [nbrsAt, hn', he, Option.getD_some] at hw
+                  exact hall w hw
+                refine ⟨hc2.ep_vis, hc2.vis_rs, ?_⟩
+                intro v hv hvv
+                rcases hc2.pending v hv hvv with h1 | h1 | h1
+                · exact Or.inl h1
+                · cases h1; exact Or.inr (Or.inr hexp)
+                · exact Or.inr (Or.inr h1)
 
-/-- **searchLayer, completeness**: if the candidate list size `ef` is at least the number
-    of vertices reachable from a non-deleted entry point through non-deleted vertices of
-    the layer (`U` is any list covering them), ALL of them are returned: the early exit,
-    the admission test and the eviction never lose one. -/
-theorem searchLayer_complete (hU : ∀ v, RL s layer ep v → v ∈ U) (hlen : U.length ≤ ef)
-    (hep : isDeleted s ep = false) (res : List (Hit S))
+/-- **searchLayer, the dichotomy**: the answer has at least `max ef 1` hits, or it contains
+    EVERY non-deleted vertex reachable from the start vertex along the layer's edges. -/
+theorem searchLayer_full_or_all (res : List (Hit S))
     (h : searchLayer m s q ep ef layer = .ok res) :
-    ∀ v, RL s layer ep v → v ∈ res.map (·.id) := by
-  simp only [searchLayer, hep] at h
-  simp only [Bool.false_eq_true, if_false] at h
+    Nat.max ef 1 ≤ res.length ∨
+    ∀ v, RL s layer ep v → isDeleted s v = false → v ∈ res.map (·.id) := by
+  simp only [searchLayer] at h
   split at h
   · cases h
   · next n hn =>
@@ -528,26 +536,54 @@ theorem searchLayer_complete (hU : ∀ v, RL s layer ep v → v ∈ U) (hlen : U
     · cases h
     · next rs hloop =>
       simp only [Except.ok.injEq] at h; subst h
-      have hseed : RL s layer ep ep ∧ isDeleted s ep = false ∧
-          ((IdMap.empty : IdMap Unit).set ep ()).contains ep = true ∧
-          Good m s q (⟨ep, m.dist q n.vec⟩ : Hit S) :=
-        ⟨Reach.refl, hep, vis_set_self _ ep, n, node!_eq hn, rfl⟩
-      have hinv : SInv m s q layer ep [⟨ep, m.dist q n.vec⟩] [⟨ep, m.dist q n.vec⟩]
-          ((IdMap.empty : IdMap Unit).set ep ()) :=
-        ⟨by intro c hc; rcases List.mem_singleton.1 hc with rfl; exact hseed,
-         by intro c hc; rcases List.mem_singleton.1 hc with rfl; exact hseed,
-         by simp⟩
+      have hn' := node!_eq hn
       have honly : ∀ v, ((IdMap.empty : IdMap Unit).set ep ()).contains v = true → v = ep := by
         intro v hv
         rcases (contains_set_iff _ ep v).1 hv with h | h
         · exact h.symm
         · simp [IdMap.contains] at h
-      have hc : CInv s layer ep none [⟨ep, m.dist q n.vec⟩] [⟨ep, m.dist q n.vec⟩]
-          ((IdMap.empty : IdMap Unit).set ep ()) :=
-        ⟨vis_set_self _ ep, fun v _ hv => by simp [honly v hv], fun v _ hv => by simp [honly v hv]⟩
-      intro v hv
-      have := searchLoop_complete m s q ef layer ep U hU hlen _ _ _ _ rs hinv hc hloop v hv
-      simpa using this
+      have hc : CInv s layer ep none [⟨ep, m.dist q n.vec⟩]
+          (if isDeleted s ep then [] else [⟨ep, m.dist q n.vec⟩]) ((IdMap.empty : IdMap Unit).set ep ()) := by
+        refine ⟨vis_set_self _ ep, ?_, fun v _ hv => by simp [honly v hv]⟩
+        intro v _ hvd hv
+        rw [honly v hv] at hvd ⊢
+        simp [hvd]
+      rcases searchLoop_complete m s q (Nat.max ef 1) layer ep _ _ _ _ rs
+        (seed_inv m s q layer ep n hn') (Or.inr hc) hloop with h1 | h1
+      · exact Or.inl (by simpa using h1)
+      · exact Or.inr (by simpa using h1)
+
+/-- **searchLayer, completeness**: if `ef` is at least the number of NON-deleted vertices
+    reachable from the start vertex (`U`: any list that covers them), ALL of them are
+    returned: the early exit, the admission test and the eviction never lose one. -/
+theorem searchLayer_complete (U : List Id)
+    (hU : ∀ v, RL s layer ep v → isDeleted s v = false → v ∈ U) (hlen : U.length ≤ ef)
+    (res : List (Hit S)) (h : searchLayer m s q ep ef layer = .ok res) :
+    ∀ v, RL s layer ep v → isDeleted s v = false → v ∈ res.map (·.id) := by
+  rcases searchLayer_full_or_all m s q ef layer ep res h with hfull | hall
+  · obtain ⟨hs1, hs2⟩ := searchLayer_sound m s q ef layer ep res h
+    have hsub : (res.map (·.id)).Subperm U :=
+      List.subperm_of_subset hs2 (fun v hv => by
+        obtain ⟨r, hr, rfl⟩ := List.mem_map.1 hv
+        exact hU _ (hs1 r hr).1 (hs1 r hr).2.1)
+    have hge : Nat.max ef 1 ≥ ef := Nat.le_max_left _ _
+    have hperm := hsub.perm_of_length_le (by simp; omega)
+    intro v hv hvd
+    exact hperm.mem_iff.2 (hU v hv hvd)
+  · exact hall
+
+/-- **searchLayer, non-emptiness**: if some non-deleted vertex is reachable from the start
+    vertex along the layer's edges, the answer is not empty — for every `ef`. -/
+theorem searchLayer_ne (res : List (Hit S)) (h : searchLayer m s q ep ef layer = .ok res)
+    (v : Id) (hv : RL s layer ep v) (hvd : isDeleted s v = false) : res ≠ [] := by
+  rcases searchLayer_full_or_all m s q ef layer ep res h with hfull | hall
+  · intro hnil
+    rw [hnil] at hfull
+    have : 1 ≤ Nat.max ef 1 := Nat.le_max_right _ _
+    simp only [List.length_nil] at hfull; omega
+  · intro hnil
+    have := hall v hv hvd
+    rw [hnil] at this; cases this
 
 end Loop
 end Comet.HNSW
